@@ -271,6 +271,12 @@ func features(p *basmgen.Program) []string {
 		if len(c.Data) > 0 {
 			f["romdata"] = true
 		}
+		if len(c.More) > 0 {
+			f["romdata-several-variables"] = true
+		}
+		if c.SharesCodeOf > 0 {
+			f["shared-code-section"] = true
+		}
 		for _, it := range c.Items {
 			if it.Macro {
 				f["macro"] = true
@@ -335,7 +341,7 @@ func main() {
 	}
 	tier, replay := hx.Args()
 	run := evid.New("C05", tier, "exploration")
-	run.Rule = "generated sources: pipelines of 1..3 CPs wired by ioatt, per CP an optional non-entry prelude, an entry label, labels, counted loops (dec/jz/j), conditional skips, macro calls, ROM table reads (mov r, rom:sym + ro2rri), mov in the forms reg←number/reg/input and output←reg (sync → i2rw/r2owa, async → r2o), literals in decimal/0x/0b/0d/0u, register sizes 8/16/32, each assembled with -disable-dynamical-matching and with -chooser-min-word-size; a source the assembler rejects is not a case; non-trivial = the machine produced ≥4 compared values; distinct by source text+options"
+	run.Rule = "generated sources: pipelines of 1..3 CPs wired by ioatt, per CP an optional non-entry prelude, an entry label, labels, counted loops (dec/jz/j), conditional skips, macro calls, ROM table reads (mov r, rom:sym + ro2rri; one or several variables per data section), in one case out of six CPs declared with the code section of an earlier CP and their own data section (the same symbols at other offsets), mov in the forms reg←number/reg/input and output←reg (sync → i2rw/r2owa, async → r2o), literals in decimal/0x/0b/0d/0u, register sizes 8/16/32, each assembled with -disable-dynamical-matching and with -chooser-min-word-size; a source the assembler rejects is not a case; non-trivial = the machine produced ≥4 compared values; distinct by source text+options"
 	run.Assume = []string{"the reference interpreter (internal/basmgen) works on the generator's AST: labels denote the next instruction, execution starts at the entry label, mov is the pseudo-instruction of docinstructions.md, sync I/O has Kahn-network semantics, arithmetic wraps at the register size",
 		"topologies are pipelines without fan-out (fan-out duplicates are C04's recorded findings)"}
 	run.Floor = 50
@@ -382,6 +388,9 @@ func main() {
 			for changed := kind != "entry-directive-ignored"; changed; {
 				changed = false
 				for ci := range p.CPs {
+					if p.CPs[ci].SharesCodeOf > 0 {
+						continue // its code is the code of an earlier CP, shrunk there
+					}
 					for ii := range p.CPs[ci].Items {
 						it := p.CPs[ci].Items[ii]
 						if it.Label != "" || it.Op == "j" || it.Op == "jz" {
@@ -393,6 +402,11 @@ func main() {
 						q := *p
 						q.CPs = append([]basmgen.CP(nil), p.CPs...)
 						q.CPs[ci].Items = append(append([]basmgen.Item(nil), p.CPs[ci].Items[:ii]...), p.CPs[ci].Items[ii+1:]...)
+						for cj := range q.CPs {
+							if q.CPs[cj].SharesCodeOf == ci+1 {
+								q.CPs[cj].Items = q.CPs[ci].Items
+							}
+						}
 						c2 := caseT{Prog: &q, In: c.In, Opt: c.Opt}
 						if k2, w2, _ := verdict(c2, want); k2 == kind {
 							p, w, c = &q, w2, c2
@@ -439,6 +453,10 @@ func main() {
 			maxLit = 31
 		}
 		p := basmgen.Generate(rng, i%5 != 0, maxLit)
+		if i%6 == 2 {
+			// CPs declared with one shared code section and their own data sections
+			p = basmgen.GenerateShared(rng, maxLit)
+		}
 		var in [][]uint64
 		for k := 0; k < p.ExtIn; k++ {
 			var s []uint64
